@@ -37,6 +37,8 @@ def configs(tier):
         add("ddr3x4-1p-K3-refresh-W8", refresh=True, K=3, window=8, **DDR3)
         add("sdr-1p-K5-reads-norefresh", refresh=False, K=5, rd_only=True, **SDR)
         add("sdr-1p-K3-buffered-d4-norefresh", refresh=False, K=3, buffered=True, depth=4, **SDR)
+        add("sdr-1p-K3-depth1-refresh-W10", refresh=True, K=3, window=10, depth=1, **SDR)        # command buffers of depth 1 / 0 are other LiteX primitives
+        add("sdr-1p-K3-depth0-norefresh", refresh=False, K=3, depth=0, **SDR)
         add("ddr3x4-c11-1p-K3-norefresh", refresh=False, K=3, rowbits=13, cols=(0, 1024), **dict(DDR3, colbits=11))
         add("sdr-1p-K2-zqcs-refresh-W8", refresh=True, K=2, window=8, tzqcs=3, zqcs_period=120, **SDR)
     else:
@@ -45,6 +47,8 @@ def configs(tier):
         add("sdr-1p-K4-noap-refresh-W25", refresh=True, K=4, window=25, ap=False, **SDR)
         add("sdr-1p-K4-buffered-d4-refresh-W14", refresh=True, K=4, window=14, buffered=True, depth=4, **SDR)
         add("sdr-2p-K3-norefresh", refresh=False, K=3, nports=2, **SDR)
+        add("sdr-2p-K3-depth1-norefresh", refresh=False, K=3, nports=2, depth=1, **SDR)
+        add("sdr-1p-K4-depth0-refresh-W14", refresh=True, K=4, window=14, depth=0, **SDR)
         add("sdr-2p-K2-refresh-W12", refresh=True, K=2, window=12, nports=2, **SDR)
         add("sdr-3p-K2-norefresh", refresh=False, K=2, nports=3, rows=(0,), cols=(0, 5), **SDR)
         add("sdr-2rank-1p-K4-refresh-W14", refresh=True, K=4, window=14, nranks=2, banks=(0, 1, 2, 3), rows=(0, 1), **SDR)
